@@ -53,19 +53,25 @@ func ParsimonyAcr(t *tree.Tree, tipCharacters map[string]string, algo int, rando
 		upstates[i] = make(AncestralState, len(alphabet))
 	}
 
-	nsteps, err = parsimonyUPPASS(t.Root(), nil, tipCharacters, states, stateIndices)
+	// A tree rooted at a tip (the root has a single neighbour): the passes start from that neighbour,
+	// so that the root is an ordinary tip of the traversal instead of stopping it
+	root := t.Root()
+	if root.Tip() && !root.Neigh()[0].Tip() {
+		root = root.Neigh()[0]
+	}
+	nsteps, err = parsimonyUPPASS(root, nil, tipCharacters, states, stateIndices)
 	if err != nil {
 		return
 	}
 
 	switch algo {
 	case ALGO_DOWNPASS:
-		parsimonyDOWNPASS(t.Root(), nil, states, upstates, stateIndices, randomResolve)
+		parsimonyDOWNPASS(root, nil, states, upstates, stateIndices, randomResolve)
 	case ALGO_DELTRAN:
-		parsimonyDOWNPASS(t.Root(), nil, states, upstates, stateIndices, false)
-		parsimonyDELTRAN(t.Root(), nil, states, stateIndices, randomResolve)
+		parsimonyDOWNPASS(root, nil, states, upstates, stateIndices, false)
+		parsimonyDELTRAN(root, nil, states, stateIndices, randomResolve)
 	case ALGO_ACCTRAN:
-		parsimonyACCTRAN(t.Root(), nil, states, stateIndices, randomResolve)
+		parsimonyACCTRAN(root, nil, states, stateIndices, randomResolve)
 	case ALGO_NONE:
 		// No pass after uppass
 	default:
